@@ -62,7 +62,7 @@ func (n *Number) AddFrac(b byte) {
 	switch {
 	case 0 < len(n.BigBuf):
 		n.BigBuf = append(n.BigBuf, b)
-	case n.Frac <= BigLimit:
+	case n.Frac <= BigLimit && n.Div <= BigLimit: // Div must not overflow either
 		n.Frac = n.Frac*10 + uint64(b-'0')
 		n.Div *= 10.0
 		if math.MaxInt64 < n.Frac {
@@ -96,7 +96,7 @@ func (n *Number) FillBig() {
 		n.BigBuf = append(n.BigBuf, '-')
 	}
 	n.BigBuf = append(n.BigBuf, strconv.FormatUint(n.I, 10)...)
-	if 0 < n.Frac {
+	if 1 < n.Div { // there are fraction digits, maybe all zero
 		n.BigBuf = append(n.BigBuf, '.')
 		if 1000000000000000000 <= n.Frac { // nearest multiple of 10 below max int64
 			n.BigBuf = append(n.BigBuf, strconv.FormatUint(n.Frac, 10)...)
